@@ -151,6 +151,14 @@ func (w *World) accessPath(v ssa.Value, ctxs map[string]*CtxInfo, depth int) str
 		if al := singleAssignCell(x); al != nil {
 			return fmt.Sprintf("%p", al)
 		}
+		// a member of a record the function was handed by value and never changes: every read of the member is the same node
+		// (and the record read as a whole is the record)
+		if al, k, ok := recordMemberRoot(x); ok {
+			return fmt.Sprintf("%p#%d", ssa.Value(al), k)
+		}
+		if al, ok := x.X.(*ssa.Alloc); ok && x.Op == token.MUL && unchangedParamRecord(al) != nil {
+			return fmt.Sprintf("%p", ssa.Value(al))
+		}
 	}
 	return fmt.Sprintf("%p", v)
 }
@@ -560,7 +568,7 @@ func c11RuleO(w *World, r *Report, subjects []*ssa.Function, ctxs map[string]*Ct
 					if why == "" {
 						continue
 					}
-					if w.guardedByPath(blk, path, ctxs) || w.guardedByPathAtCallers(blk.Parent(), call, path, ctxs, 0) || w.guardedByPathAtFrames(blk.Parent(), call, path, ctxs) {
+					if w.guardedByPath(blk, path, ctxs) || w.guardedByPathAtCallers(blk.Parent(), call, path, ctxs, 0) || w.guardedByPathAtFrames(blk.Parent(), call, path, ctxs) || w.guardedByRecordPathAtFrames(call, path, ctxs) {
 						continue
 					}
 					bad = append(bad, why+" at "+w.instrPos(ref))
